@@ -9,7 +9,7 @@ CONSTANTS
   Acts = {"Write", "Delete", "DirToFile", "FileToDir", "CheckOut", "SetSparse", "Snapshot"}
   EditPaths <- AllEditPaths
   Contents = {1, 2}
-  SymTargets = {"out", "f"}
+  SymTargets = {"out", "f", "out/x"}
   RootIgnore = {1, 2, 3, 4, 7}
   DirIgnore = {3, 5, 6}
   TreeIds = {1, 2, 3, 4, 5, 6, 7, 8, 9, 10, 11, 12, 13}
